@@ -185,7 +185,7 @@ def representation_acts_by_word_matrix(ctx, n, kind):
 @bounded(P, "sampling", functions=F_APPLY, note="all classes, real and complex matrices, composite shapes to rank 3, dimensions 1..4, words to length 6")
 def sampling(tier, rng, rep):
     N = 150 if tier == 'thorough' else 30
-    rep.rule = "random invertible real/complex matrices; all object classes; shapes (), (3,), (2,2), (2,1,2); non-trivial = composite shape or complex data"
+    rep.rule = "random invertible real/complex matrices; all object classes; shapes (), (3,), (2,2), (2,1,2); mixed entry types (real or integer object under a complex / real map, real map composed with a complex one); non-trivial = composite shape or complex data"
     rep.bound = f"{N} rounds x 6 projective classes"
 
     def close(a, b, tol=1e-7):
@@ -203,14 +203,28 @@ def sampling(tier, rng, rep):
         sc = lambda: 10.0 ** rng.uniform(-10, 3) if t % 3 == 0 else 1.0
         rnd = lambda s: (rng.normal(size=s) + (1j * rng.normal(size=s) if cplx else 0)) * sc()
         A, B = rnd((n + 1, n + 1)), rnd((n + 1, n + 1))
+        # mixed entry types: the object's entries need not have the type of the transformation's (a real object moved by a
+        # complex map, integer lattice points moved by a real map, a real map composed with a complex one)
+        xkind = ["same", "real_object", "integer_object", "same", "real_B"][t % 5]
+        if xkind == "real_B":
+            B = B.real.copy()
         TA, TB, I = pr.Transformation(A.copy()), pr.Transformation(B.copy()), pr.identity(n)
         for cls, (ctor, shp) in _proj_objects(n).items():
             data = rnd(shp(shape))
-            inp = {"class": cls, "n": n, "shape": list(shape), "complex": cplx, "A": [A.real.tolist(), np.imag(A).tolist()],
+            if xkind == "real_object":
+                data = data.real.copy()
+            elif xkind == "integer_object":
+                data = rng.integers(-4, 5, size=shp(shape)).astype(np.int64)
+                while not np.all(np.any(data != 0, axis=-1)):
+                    data = rng.integers(-4, 5, size=shp(shape)).astype(np.int64)
+            inp = {"class": cls, "n": n, "shape": list(shape), "complex": cplx, "entry_types": xkind, "A": [A.real.tolist(), np.imag(A).tolist()],
                    "B": [B.real.tolist(), np.imag(B).tolist()], "X": [data.real.tolist(), np.imag(data).tolist()]}
 
             def laws():
                 X = ctor(data.copy())
+                one = TA @ X
+                if not close(np.asarray(one.proj_data, dtype=complex), np.asarray(data, dtype=complex) @ A):
+                    rep.fail("acts_as_the_matrix", "(A @ X).proj_data != X.proj_data A", inp)
                 l, r = (TA @ TB) @ X, TA @ (TB @ X)
                 if type(l) is not type(X) or l.shape != X.shape:
                     rep.fail("type_shape", f"{type(l).__name__} {l.shape}", inp)
